@@ -17,29 +17,33 @@ structure Cert (T : Tables) (atoms : List (Nat × Atom)) (paths : List (Nat × B
 theorem subsetB_iff {α : Type} [BEq α] [LawfulBEq α] (a b : List α) : subsetB a b = true ↔ ∀ x ∈ a, x ∈ b := by
   simp [subsetB, List.all_eq_true]
 
+theorem lsufH_eq (P : List Bytes) (w : Bytes) : lsufH (Std.HashSet.ofList P) w = lsuf P w := by
+  induction w with
+  | nil => rfl
+  | cons c t ih => simp only [lsufH, lsuf, Std.HashSet.contains_ofList, ih]
+
 theorem cert_of_certOK (T : Tables) (atoms : List (Nat × Atom)) (paths : List (Nat × Bytes))
     (h : certOK T atoms paths = true) : Cert T atoms paths := by
   unfold certOK at h
-  simp only [Bool.and_eq_true, List.all_eq_true, List.contains_eq_mem, decide_eq_true_eq] at h
-  obtain ⟨⟨⟨⟨⟨h1, h2⟩, h3⟩, h4⟩, h5⟩, h6⟩ := h
-  refine ⟨by simpa using h1, ?_, ?_, ?_, ?_⟩
+  simp only [Bool.and_eq_true, List.all_eq_true, Std.HashSet.contains_ofList, List.contains_eq_mem, decide_eq_true_eq,
+    lsufH_eq] at h
+  obtain ⟨⟨⟨⟨h1, h2⟩, h4⟩, h5⟩, h6⟩ := h
+  refine ⟨h1, ?_, ?_, ?_, ?_⟩
   · intro sp hsp
     have := h2 sp hsp
     simp only [Bool.or_eq_true, List.isEmpty_iff, decide_eq_true_eq] at this
     rcases this with h | h
     · exact Or.inl h
-    · exact Or.inr (by simpa using h)
+    · exact Or.inr h
   · intro sp hsp c hc
     have := h4 sp hsp c (by simpa using hc)
-    simpa using this
+    exact this
   · intro sp hsp e
     have := h5 sp hsp
     simp only [subsetB_iff] at this
     exact ⟨fun h => this.1 e h, fun h => this.2 e h⟩
   · intro sa hsa
-    have := h6 sa hsa
-    simpa using this
-
+    exact h6 sa hsa
 
 theorem prefixClosed_of_cert {T : Tables} {atoms : List (Nat × Atom)} {paths : List (Nat × Bytes)}
     (h : Cert T atoms paths) : PrefixClosed (paths.map (·.2)) := by
